@@ -491,3 +491,136 @@ pub fn adrop(seed: u64, n: usize, out: &mut dyn Write) {
     }
     let _ = writeln!(out, "#stat adrop:scenarios {}", n);
 }
+
+// ---------------------------------------------------------------- aged collectors and threads
+type Job = Box<dyn FnOnce() + Send>;
+
+struct Helper {
+    tx: mpsc::Sender<Job>,
+    join: Option<std::thread::JoinHandle<()>>,
+}
+impl Helper {
+    fn new(name: &str) -> Helper {
+        let (tx, rx) = mpsc::channel::<Job>();
+        let join = std::thread::Builder::new().name(name.to_string()).spawn(move || {
+            for job in rx {
+                job();
+            }
+        }).unwrap();
+        Helper { tx, join: Some(join) }
+    }
+    /// runs the job on the helper thread and waits until it is done
+    fn run(&self, f: impl FnOnce() + Send + 'static) {
+        let (dtx, drx) = mpsc::channel::<()>();
+        self.tx.send(Box::new(move || { f(); let _ = dtx.send(()); })).unwrap();
+        let _ = drx.recv_timeout(Duration::from_secs(20));
+    }
+    fn stop(mut self) {
+        let (tx, _) = mpsc::channel::<Job>();
+        drop(std::mem::replace(&mut self.tx, tx));
+        if let Some(j) = self.join.take() {
+            let _ = j.join();
+        }
+    }
+}
+
+/// State carried across many cycles and traces: two threads that have been tracing for a
+/// while (0-40 earlier traces), a collector that has run 0-2100 cycles in which their rings
+/// were empty, and only then the trace under test -- root on one thread, a child (with a local
+/// span and an event) finished on the other before the root finishes.  It must arrive whole:
+/// every span exactly once, in cancelable mode in one report call.
+pub fn aged(seed: u64, n: usize, out: &mut dyn Write) {
+    fastrace::verif::set_callback(None);
+    let mut r = Rng::new(seed);
+    for k in 0..n {
+        let cancelable = r.chance(1, 2);
+        let idle = match r.below(5) { 0 => 0, 1 => 17, 2 => 300, 3 => 1100, _ => 2100 };
+        let warm = 1 + match r.below(3) { 0 => 0, 1 => 3, _ => 40 };
+        let reports: Arc<Mutex<Vec<Vec<SpanRecord>>>> = Arc::new(Mutex::new(Vec::new()));
+        fastrace::verif::install(CapReporter(reports.clone()), Config::default().cancelable(cancelable));
+        let a = Helper::new("aged-a");
+        let b = Helper::new("aged-b");
+        let trace_of = |i: usize| ((seed as u128) << 64) | ((k as u128) << 20) | (i as u128 + 1);
+        // one trace: root on A, child handed to B and finished there with a local span, then the
+        // root finished on A
+        let run_trace = |i: usize, tag: &'static str| {
+            let slot: Arc<Mutex<Option<Span>>> = Arc::new(Mutex::new(None));
+            let (s1, s2, s3) = (slot.clone(), slot.clone(), slot.clone());
+            let t = trace_of(i);
+            let child_slot: Arc<Mutex<Option<Span>>> = Arc::new(Mutex::new(None));
+            let (c1, c2) = (child_slot.clone(), child_slot.clone());
+            a.run(move || {
+                let root = Span::root(format!("{tag}-root-{i}"), SpanContext::new(TraceId(t), SpanId(9)));
+                *c1.lock().unwrap() = Some(Span::enter_with_parent(format!("{tag}-child-{i}"), &root));
+                *s1.lock().unwrap() = Some(root);
+            });
+            b.run(move || {
+                let child = c2.lock().unwrap().take().unwrap();
+                {
+                    let _g = child.set_local_parent();
+                    let _l = LocalSpan::enter_with_local_parent(format!("{tag}-local-{i}"));
+                    LocalSpan::add_event(Event::new("aged-event"));
+                }
+                drop(child);
+            });
+            a.run(move || drop(s2.lock().unwrap().take()));
+            let _ = s3;
+        };
+        for i in 0..warm {
+            run_trace(i, "warm");
+            if i % 4 == 3 {
+                fastrace::verif::run_collector_cycle();
+            }
+        }
+        fastrace::verif::run_collector_cycle();
+        fastrace::verif::run_collector_cycle();
+        for _ in 0..idle {
+            fastrace::verif::run_collector_cycle();
+        }
+        let before: Vec<Vec<SpanRecord>> = reports.lock().unwrap().drain(..).collect();
+        let mut bad: Vec<String> = vec![];
+        for i in 0..warm {
+            for nm in [format!("warm-root-{i}"), format!("warm-child-{i}"), format!("warm-local-{i}")] {
+                let cnt: usize = before.iter().map(|x| x.iter().filter(|y| y.name == nm).count()).sum();
+                if cnt != 1 {
+                    bad.push(format!("{nm} delivered {cnt} times"));
+                }
+            }
+        }
+        run_trace(warm, "aged");
+        fastrace::verif::run_collector_cycle();
+        let first: Vec<Vec<SpanRecord>> = reports.lock().unwrap().drain(..).collect();
+        fastrace::verif::run_collector_cycle();
+        fastrace::verif::run_collector_cycle();
+        let later: Vec<Vec<SpanRecord>> = reports.lock().unwrap().drain(..).collect();
+        let expected = [format!("aged-root-{warm}"), format!("aged-child-{warm}"), format!("aged-local-{warm}")];
+        for nm in &expected {
+            let c1: usize = first.iter().map(|x| x.iter().filter(|y| y.name == *nm).count()).sum();
+            let c2: usize = later.iter().map(|x| x.iter().filter(|y| y.name == *nm).count()).sum();
+            if c1 + c2 != 1 {
+                bad.push(format!("{nm} delivered {} times", c1 + c2));
+            } else if c1 != 1 {
+                bad.push(format!("{nm} not delivered by the first cycle after it was finished"));
+            }
+        }
+        let ev: usize = first.iter().chain(later.iter()).map(|x| x.iter().filter(|y| y.name == expected[2]).map(|y| y.events.len()).sum::<usize>()).sum();
+        if ev != 1 && bad.is_empty() {
+            bad.push(format!("the local span carries {ev} events"));
+        }
+        if cancelable {
+            let calls = first.iter().chain(later.iter()).filter(|x| x.iter().any(|y| expected.iter().any(|e| y.name == *e))).count();
+            if calls > 1 {
+                bad.push(format!("cancelable trace delivered in {calls} report calls"));
+            }
+        }
+        let st = fastrace::verif::collector_stats();
+        if !st.active.is_empty() && bad.is_empty() {
+            bad.push(format!("{} traces retained after everything finished", st.active.len()));
+        }
+        a.stop();
+        b.stop();
+        let verdict = if bad.is_empty() { "whole-trace".to_string() } else { format!("VIOLATION {}", bad.join("; ")) };
+        let _ = writeln!(out, "G scenario={} cancelable={} idle_cycles={} earlier_traces={} => {}", k, cancelable, idle, warm, verdict);
+    }
+    let _ = writeln!(out, "#stat aged:scenarios {}", n);
+}
